@@ -181,6 +181,7 @@ pub(crate) fn c05_input_after_finalize_panics() {
     let mut p = mk(any(), any(), any(), 0, any(), true);
     let d: [u8; 3] = any();
     p.input(&d);
+    vcover!(true, "MUST-NOT: returned normally instead of refusing");
 }
 
 // ------------------------------------------------------------------------------------------------ finish: framing of the last partial block
@@ -304,4 +305,5 @@ pub(crate) fn c20_poly1305_raw_result_short_output_panics() {
     let n: usize = any();
     assume(n < 16);
     p.raw_result(&mut out[..n]);
+    vcover!(true, "MUST-NOT: returned normally instead of refusing");
 }
